@@ -48,15 +48,20 @@ Definition TK_ToPrivate (T : TicketKey) : ticketKey :=
 Definition ticketKeys_ToPublic (s : slice ticketKey) : slice TicketKey := rebuild tk_ToPublic s.          (* :838 *)
 Definition TicketKeys_ToPrivate (s : slice TicketKey) : slice ticketKey := rebuild TK_ToPrivate s.        (* :846 *)
 
-(* ---- key-share private keys (u_public.go:888-917, key_schedule.go:53) ---- *)
-Record KeySharePrivateKeys := { KP_CurveID : N; KP_Ecdhe : option N; KP_Mlkem : option N; KP_MlkemEcdhe : option N }.
-Record keySharePrivateKeys := { kp_curveID : N; kp_ecdhe : option N; kp_mlkem : option N; kp_mlkemEcdhe : option N }.
+(* ---- key-share private keys (u_public.go:888-924, key_schedule.go:53-60) ---- *)
+(* ExtraEcdhe / extraEcdhe ([]*ecdh.PrivateKey, added by the C18 fix): the slice is assigned as is, so a plain list of key identities *)
+Record KeySharePrivateKeys := { KP_CurveID : N; KP_Ecdhe : option N; KP_Mlkem : option N; KP_MlkemEcdhe : option N;
+  KP_ExtraEcdhe : list (option N) }.
+Record keySharePrivateKeys := { kp_curveID : N; kp_ecdhe : option N; kp_mlkem : option N; kp_mlkemEcdhe : option N;
+  kp_extraEcdhe : list (option N) }.
 Definition KP_ToPrivate (k : option KeySharePrivateKeys) : option keySharePrivateKeys :=                   (* :895 *)
   match k with None => None | Some k =>
-    Some {| kp_curveID := KP_CurveID k; kp_ecdhe := KP_Ecdhe k; kp_mlkem := KP_Mlkem k; kp_mlkemEcdhe := KP_MlkemEcdhe k |} end.
+    Some {| kp_curveID := KP_CurveID k; kp_ecdhe := KP_Ecdhe k; kp_mlkem := KP_Mlkem k; kp_mlkemEcdhe := KP_MlkemEcdhe k;
+            kp_extraEcdhe := KP_ExtraEcdhe k |} end.
 Definition kp_ToPublic (k : option keySharePrivateKeys) : option KeySharePrivateKeys :=                   (* :907 *)
   match k with None => None | Some k =>
-    Some {| KP_CurveID := kp_curveID k; KP_Ecdhe := kp_ecdhe k; KP_Mlkem := kp_mlkem k; KP_MlkemEcdhe := kp_mlkemEcdhe k |} end.
+    Some {| KP_CurveID := kp_curveID k; KP_Ecdhe := kp_ecdhe k; KP_Mlkem := kp_mlkem k; KP_MlkemEcdhe := kp_mlkemEcdhe k;
+            KP_ExtraEcdhe := kp_extraEcdhe k |} end.
 
 (* ---- deprecated KEM key view (u_public.go:854-886) ---- *)
 Record KemPrivateKey := { KM_SecretKey : option N; KM_CurveID : N }.
@@ -300,9 +305,9 @@ Definition info_PskIdentity : pair_info := {| pi_pub := ["Label";"ObfuscatedTick
   pi_copied := [("Label","label");("ObfuscatedTicketAge","obfuscatedTicketAge")] |}.
 Definition info_TicketKey : pair_info := {| pi_pub := ["AesKey";"HmacKey";"Created"]; pi_priv := ["aesKey";"hmacKey";"created"];
   pi_copied := [("AesKey","aesKey");("HmacKey","hmacKey");("Created","created")] |}.
-Definition info_KeySharePrivateKeys : pair_info := {| pi_pub := ["CurveID";"Ecdhe";"Mlkem";"MlkemEcdhe"];
-  pi_priv := ["curveID";"ecdhe";"mlkem";"mlkemEcdhe"];
-  pi_copied := [("CurveID","curveID");("Ecdhe","ecdhe");("Mlkem","mlkem");("MlkemEcdhe","mlkemEcdhe")] |}.
+Definition info_KeySharePrivateKeys : pair_info := {| pi_pub := ["CurveID";"Ecdhe";"Mlkem";"MlkemEcdhe";"ExtraEcdhe"];
+  pi_priv := ["curveID";"ecdhe";"mlkem";"mlkemEcdhe";"extraEcdhe"];
+  pi_copied := [("CurveID","curveID");("Ecdhe","ecdhe");("Mlkem","mlkem");("MlkemEcdhe","mlkemEcdhe");("ExtraEcdhe","extraEcdhe")] |}.
 Definition info_KemPrivateKey : pair_info := {| pi_pub := ["SecretKey";"CurveID"]; pi_priv := ["secretKey";"curveID"];
   pi_copied := [("SecretKey","secretKey");("CurveID","curveID")] |}.
 Definition info_CipherSuiteTLS13 : pair_info := {| pi_pub := ["Id";"KeyLen";"Aead";"Hash"]; pi_priv := ["id";"keyLen";"aead";"hash"];
